@@ -104,7 +104,9 @@ AllPrintable(t) == CASE t.k = "c" -> Printable(t) [] t.k = "v" -> t.id < 128 [] 
 
 (* e: a recorded str(tree) of a tree the parser produced, parsed back with the real parser (C04) *)
 PrintVerdict(e) ==
-  IF ~KnownKinds(e.t) \/ ~Finite(e.t) THEN {} ELSE
+  IF ~KnownKinds(e.t) THEN {} ELSE
+  \* a tree with a constant that has no value (inf / nan): values cannot be compared, but its text must still be accepted and name the same variables
+  IF ~Finite(e.t) THEN (IF e.reparse = "ok" /\ KnownKinds(e.re) /\ Vars(e.t) = Vars(e.re) THEN {} ELSE {"roundtrip"}) ELSE
   IF e.reparse # "ok" THEN {"roundtrip"} ELSE
   IF ~KnownKinds(e.re) THEN {"roundtrip"} ELSE
   (IF Same(e.t, e.re) /\ Vars(e.t) = Vars(e.re) THEN {} ELSE {"roundtrip"})
